@@ -109,7 +109,8 @@ def remove_nested_observers(saved):
         mod.read_sunvox_file = orig
 
 
-def one_load(api, tid, data, flag0, kind, fail_at=None):
+def one_load(api, tid, data, flag0, kind, fail_at=None, open_fails=None):
+    """open_fails: None | "missing" | "directory" | "denied" - the library's own open of the path fails before any read."""
     import rv.errors
     log = []
     st = {}
@@ -118,8 +119,13 @@ def one_load(api, tid, data, flag0, kind, fail_at=None):
     orig_open = pathlib.Path.open
     try:
         log.append({"op": "enter", "kind": kind})
-        if kind == "path":
+        if kind == "path" and open_fails in ("missing", "directory"):
+            target = "/nonexistent/verif-c18-%s.sunvox" % tid.__hash__() if open_fails == "missing" else os.path.dirname(os.path.abspath(__file__))
+            arg = target if tid.__hash__() % 2 else pathlib.Path(target)
+        elif kind == "path":
             def fake_open(self, *a, **k):
+                if open_fails == "denied":
+                    raise PermissionError("injected: open refused")
                 st["stream"] = FaultStream(data, log, fail_at)
                 return st["stream"]
             pathlib.Path.open = fake_open
@@ -233,6 +239,14 @@ def run(ctx):
         # truncation / corruption at chunk positions, also inside embedded containers
         for cname, cdata in corruptions(data, rnd, 4 if q else 25):
             add(name + ":" + cname, cdata, rnd.choice([True, True, False]), rnd.choice(["path", "stream"]))
+    # the library's own open of the path fails (missing file, a directory, permission): still an exit path of the load
+    for k, of in enumerate(["missing", "directory", "denied"] * (2 if q else 6)):
+        for flag0 in (True, False):
+            t = one_load(api, "open-%s|%s|%d" % (of, flag0, len(traces)), b"", flag0, "path", open_fails=of)
+            traces.append(t)
+            ctx.count_case(("open-fails", of, flag0, k), nontrivial=True)
+    if not any(t["events"][0]["kind"] == "path" and any(e["op"] == "io" for e in t["events"]) for t in traces):
+        raise MachineryError("no path-opened load reached the wrapped Path.open (the library opens files differently now?)")
     if not any(e["op"] == "nested_enter" for t in traces for e in t["events"]):
         raise MachineryError("no nested load was observed")
     cans = []
